@@ -523,6 +523,14 @@ def _values_equiv(ra, rb):
     return False
 
 
+def _only_text_widths_differ(ra, rb):
+    a, b = ra[1], rb[1]
+    if not (isinstance(a, tuple) and a and a[0] == 'Frame' and b[0] == 'Frame'):
+        return False
+    da, db = [c[0] for c in a[4]], [c[0] for c in b[4]]
+    return len(da) == len(db) and all(x == y or (x[0] == y[0] and x[0] in 'US') for x, y in zip(da, db))
+
+
 def _num_equal_tokens(a, b):
     """token tuples equal up to numeric widening / bool<->int (values compare == in Python)"""
     from sfv.props.c04 import cell_equal
@@ -549,12 +557,21 @@ def classify_layout_difference(case, ra, rb):
             return 'F35'
         if name in ('astype_cols', 'astype_all') and args[-1] == 'str':
             return 'F33'
+        if _only_text_widths_differ(ra, rb):
+            return 'F33'  # fixed-width text dtype chosen per block (e.g. bytes * 2)
     if name == 'bloc' and ra[0] == rb[0] == 'ok':
         a, b = ra[1], rb[1]
         if a[0] == b[0] == 'Series' and sorted(zip(a[1], a[2])) == sorted(zip(b[1], b[2])):
             return 'F20'  # same (label, value) pairs, order depends on layout
     if name == 'reduce' and rows == 0 and args[0] in ('all', 'any'):
         return 'F66'  # zero-row logical reductions read uninitialised memory for 2-D blocks
+    if name == 'reduce' and any(c['dt'] in ('object', 'str', 'bytes') or c['dt'].startswith(('datetime', 'timedelta')) for c in case['spec']['cols']):
+        # reductions over frames holding object / string / datetime columns are applied per block after casting each
+        # block to the object row dtype: whether it raises, and what an all-missing or mixed vector reduces to, depends on
+        # which columns share a block (C15 findings F38-F44 have the same root)
+        return 'F69'
+    if name == 'reduce' and any(c['dt'] == 'bool' for c in case['spec']['cols']) and len({c['dt'] for c in case['spec']['cols']}) > 1:
+        return 'F69'  # bool next to numbers makes the row dtype object: same per-block object reductions
     if name == 'reduce' and args[1] == 0:
         fn, skipna = args[0], args[2]
         if ra[0] == rb[0] == 'ok' and ra[1][0] == rb[1][0] == 'Series' and ra[1][1] == rb[1][1] and _num_equal_tokens(ra[1][2], rb[1][2]):
